@@ -113,6 +113,13 @@ Definition unpause_corrected (i : winput) (res : wresult) : bool :=
     end
   else true.
 
+(* ... and ONLY there: a blue-green release (the Deployment carries the original-strategy annotation) is driven un-paused, so an
+   update of it that is no release change -- the controller's own un-pause included -- is admitted as submitted *)
+Definition bluegreen_left_alone (i : winput) (res : wresult) : bool :=
+  if selected i && in_progress i && wo_original (wi_new i) && (match wo_style (wi_new i) with DsPartition => false | _ => true end) &&
+     negb (release_change (wi_new i) (wi_old i))
+  then match res with WUnchanged => true | WPatched p => Bool.eqb (wp_paused p) (wp_paused (wo_f (wi_new i))) | _ => false end else true.
+
 Definition no_failure (res : wresult) : bool := match res with WError | WPanic => false | _ => true end.
 
 Definition judge (c : case) : list verdict :=
@@ -122,6 +129,7 @@ Definition judge (c : case) : list verdict :=
     clause "C08_unchanged_otherwise" (unchanged_otherwise i res);
     clause "C08_frame" (c_frame c && frame_ok i res);
     clause "C08_unpause_corrected" (unpause_corrected i res);
+    clause "C08_bluegreen_unpause_is_left_alone" (bluegreen_left_alone i res);
     clause "C08_admission_never_fails" (no_failure res) ].
 
 Definition tag (c : case) : string :=
